@@ -79,6 +79,7 @@ type c16desc struct {
 	Cfg    c16cfg        `json:"cfg"`
 	Script []string      `json:"script"`
 	Stream *c16streamCfg `json:"stream,omitempty"` // instead of a script: a stream of commands against running threads (c16stream.go)
+	Race   string        `json:"race,omitempty"`   // first report of the race detector (race stream)
 }
 
 type c16thread struct {
